@@ -957,8 +957,28 @@ pub fn gen_packet(r: &mut Rng, cfg: &GenCfg) -> Spec {
     s
 }
 
+/// A count far beyond the limit is the only thing wrong with its configuration: a narrow counter
+/// that takes it for a legal count must not be rescued by an element or a padding that is refused
+/// anyway.
+fn far_beyond(n: usize, cfg: &GenCfg, padding: &mut u8) -> GenCfg {
+    if n > 40 {
+        if *padding % 4 != 0 {
+            *padding = 0;
+        }
+        GenCfg { invalid_pm: 0, ..cfg.clone() }
+    } else {
+        cfg.clone()
+    }
+}
+
+fn gen_blocks(r: &mut Rng, cfg: &GenCfg, padding: &mut u8) -> Vec<Rb> {
+    let n = gen_count(r, cfg, 31);
+    let ecfg = far_beyond(n, cfg, padding);
+    (0..n).map(|_| gen_rb(r, &ecfg)).collect()
+}
+
 fn gen_packet_raw(r: &mut Rng, cfg: &GenCfg) -> Spec {
-    let padding = gen_padding(r, cfg);
+    let mut padding = gen_padding(r, cfg);
     match r.below(if cfg.third { 11 } else { 10 }) {
         0 => Spec::Sr {
             ssrc: r.u32_biased(),
@@ -966,11 +986,15 @@ fn gen_packet_raw(r: &mut Rng, cfg: &GenCfg) -> Spec {
             rtp: r.u32_biased(),
             pc: r.u32_biased(),
             oc: r.u32_biased(),
-            blocks: (0..gen_count(r, cfg, 31)).map(|_| gen_rb(r, cfg)).collect(),
+            blocks: gen_blocks(r, cfg, &mut padding),
             padding,
         },
-        1 => Spec::Rr { ssrc: r.u32_biased(), blocks: (0..gen_count(r, cfg, 31)).map(|_| gen_rb(r, cfg)).collect(), padding },
-        2 => Spec::Sdes { chunks: (0..gen_count(r, cfg, 31)).map(|_| gen_chunk(r, cfg)).collect(), padding },
+        1 => Spec::Rr { ssrc: r.u32_biased(), blocks: gen_blocks(r, cfg, &mut padding), padding },
+        2 => {
+            let n = gen_count(r, cfg, 31);
+            let ecfg = far_beyond(n, cfg, &mut padding);
+            Spec::Sdes { chunks: (0..n).map(|_| gen_chunk(r, &ecfg)).collect(), padding }
+        }
         3 => {
             let n = gen_count(r, cfg, 31);
             let rl = if r.chance(1, 3) { 0 } else { gen_len(r, cfg, 255) };
@@ -1197,7 +1221,7 @@ fn shrink_chunk(c: &Chunk) -> Vec<Chunk> {
     for items in shrink_vec(&c.items) {
         out.push(Chunk { ssrc: c.ssrc, items });
     }
-    for (k, it) in c.items.iter().enumerate() {
+    for (k, it) in c.items.iter().enumerate().take(if c.items.len() > 200 { 2 } else { usize::MAX }) {
         for s in shrink_item(it) {
             let mut items = c.items.clone();
             items[k] = s;
@@ -1273,6 +1297,9 @@ impl Spec {
     /// Candidate simplifications, most aggressive first.
     pub fn shrinks(&self) -> Vec<Spec> {
         let mut out = Vec::new();
+        // per-element candidates each carry a copy of the whole list: for a list of thousands of
+        // elements only the halving / dropping candidates are offered until it has become small
+        let per_element = if self.weight() > 2000 { 2 } else { usize::MAX };
         match self {
             Spec::Sr { ssrc, ntp, rtp, pc, oc, blocks, padding } => {
                 let mk = |ssrc: u32, ntp: u64, rtp: u32, pc: u32, oc: u32, blocks: Vec<Rb>, padding: u8| Spec::Sr { ssrc, ntp, rtp, pc, oc, blocks, padding };
@@ -1285,7 +1312,7 @@ impl Spec {
                 if (*ssrc, *ntp, *rtp, *pc, *oc) != (0, 0, 0, 0, 0) {
                     out.push(mk(0, 0, 0, 0, 0, blocks.clone(), *padding));
                 }
-                for (k, b) in blocks.iter().enumerate() {
+                for (k, b) in blocks.iter().enumerate().take(per_element) {
                     for s in shrink_rb(b) {
                         let mut bl = blocks.clone();
                         bl[k] = s;
@@ -1303,7 +1330,7 @@ impl Spec {
                 for s in shrink_u32(*ssrc) {
                     out.push(Spec::Rr { ssrc: s, blocks: blocks.clone(), padding: *padding });
                 }
-                for (k, b) in blocks.iter().enumerate() {
+                for (k, b) in blocks.iter().enumerate().take(per_element) {
                     for s in shrink_rb(b) {
                         let mut bl = blocks.clone();
                         bl[k] = s;
@@ -1318,7 +1345,7 @@ impl Spec {
                 for p in shrink_padding(*padding) {
                     out.push(Spec::Sdes { chunks: chunks.clone(), padding: p });
                 }
-                for (k, c) in chunks.iter().enumerate() {
+                for (k, c) in chunks.iter().enumerate().take(per_element) {
                     for s in shrink_chunk(c) {
                         let mut cs = chunks.clone();
                         cs[k] = s;
@@ -1394,7 +1421,7 @@ impl Spec {
                 for m in shrink_vec(members) {
                     out.push(Spec::Compound { members: m });
                 }
-                for (k, m) in members.iter().enumerate() {
+                for (k, m) in members.iter().enumerate().take(per_element) {
                     for s in m.shrinks() {
                         let mut ms = members.clone();
                         ms[k] = s;
